@@ -1,9 +1,11 @@
-"""C19 — copy / info round trips (model correspondence + oracle) and no-aliasing / no-mutation of arguments
-(harness only: object identity is not expressible in the pure Lean model — DESIGN.md §4/C19).
+"""C19 — copy / info round trips (model correspondence + oracle) and no-aliasing / no-mutation of arguments.
 
 Families:
-  info      create_from_info(get_info(M)) vs the Lean model's createFromInfo(getInfo m), + direct oracle
-  copy      M.copy() vs copyObj
+  heap      histories of API calls: the real sharing graph (identity of mutable containers) and the changed cells after
+            every call vs the explicit-heap Lean model (T19.A/B/C), + the independent aliasing oracle — harness/c19h.py
+  info      create_from_info(get_info(M)) vs the Lean model's createFromInfo(getInfo m), + direct oracle (incl. the exact
+            type of every recorded constraint polynomial, value() and is_solution_valid() on all assignments)
+  copy      M.copy() vs copyObj (same oracle, also for the copy constructor)
   unchanged every public function/method taking a model, dict or constraint polynomial: deep snapshot of every
             argument before / after
   alias     copy(), copy constructors and the getters mapping / reverse_mapping / variables / constraints:
@@ -18,12 +20,20 @@ CEXT = "plain"
 RULE = ("random model objects of the ten types (three label realisations, stale bookkeeping, names, 0-3 constraints of "
         "all six relations with lam in {0,1,2}) round-tripped through get_info/create_from_info and copy(); plus one call of "
         "every public function/method that takes a model/dict/constraint argument with argument snapshots; plus aliasing "
-        "probes on copies and getters. non-trivial = model with >=2 terms (info/copy) or a call whose argument has >=2 terms; "
+        "probes on copies and getters; plus generated histories of 8-20 API calls over 1-4 objects (8 scripted openings: copy then "
+        "mutate, receiver = argument, model arguments passed twice, update-induced sharing, getters, conversions/solvers/annealers, "
+        "copy constructors, random; then 3-7 random applicable calls) whose sharing graph and changed cells are compared with the "
+        "explicit-heap model after every call. non-trivial = model with >=2 terms (info/copy) or a call whose argument has >=2 terms; "
         "distinct = distinct case JSON")
 ASSUMPTIONS = ["'unchanged argument' is judged by value equality (dict ==, order-insensitive): the brute-force solvers "
                "pop and re-insert the offset key, which moves it to the end of the dict's iteration order",
-               "the aliasing / argument-immutability half of C19 is decided by this harness only (differential testing "
-               "against snapshots), not by a theorem: a pure functional model satisfies it by construction"]
+               "the aliasing theorems (T19.A/B/C) are about the explicit-heap model Qv/Model/Heap.lean; that it says what the "
+               "code does to the object graph is established by comparing the real identity graph and changed-cell set with "
+               "its prediction after every call of the generated histories (testing); functions not modelled as heap "
+               "transformers (subgraph, subvalue, normalize, value, sat gates, arithmetic, extrema) are covered by "
+               "before/after snapshots only",
+               "a mutable container = dict / list / set (and subclasses); attributes named _verif_* (the DESIGN §5 hook) are "
+               "not part of the library's state"]
 
 BOOL = ["QUBO", "PUBO", "PCBO", "QUBOMatrix", "PUBOMatrix"]
 SPIN = ["QUSO", "PUSO", "PCSO", "QUSOMatrix", "PUSOMatrix"]
@@ -87,15 +97,54 @@ def terms_ordered(d, L):
 def observe(M, L):
     kind = type(M).__name__
     o = {"kind": kind, "terms": terms_ordered(M, L), "name": M.name if isinstance(M.name, str) else None,
-         "mapping": [], "anc": 0, "cons": []}
+         "mapping": [], "anc": 0, "cons": [], "ckinds": []}
     if kind in LABELLED:
         o["mapping"] = [[L.ident(k), v] for k, v in M._mapping.items()]
     if kind in CONSTRAINED:
         o["anc"] = M.num_ancillas
         o["cons"] = [[r, [terms_ordered(p, L) for p in ps]] for r, ps in M._constraints.items()]
+        o["ckinds"] = [[r, [type(p).__name__ for p in ps]] for r, ps in M._constraints.items()]
     return o
 
 # ------------------------------------------------------------------ info / copy
+
+def behaves_differently(M, C, what):
+    """M and C (a round-trip copy / copy() / copy constructor result of M) must be the same model: the exact type of
+    every recorded constraint polynomial, and — for small models — `value` and `is_solution_valid` on every assignment of
+    the variables (ancillas included; +-1 for spin models).  Returns a description of the first difference or None."""
+    kind = type(M).__name__
+    if kind in CONSTRAINED:
+        mc, cc = M._constraints, C._constraints
+        if list(mc) != list(cc) or any(len(mc[r]) != len(cc[r]) for r in mc):
+            return "%s: recorded constraints are grouped differently" % what
+        for r in mc:
+            for i, (p, q) in enumerate(zip(mc[r], cc[r])):
+                if type(p) is not type(q):
+                    return "%s: constraint %r #%d is a %s, the model's is a %s" % (what, r, i, type(q).__name__, type(p).__name__)
+                if dict(p) != dict(q):
+                    return "%s: constraint %r #%d has different terms" % (what, r, i)
+    labels = set(M._variables) | {x for k in M for x in k}
+    if kind in CONSTRAINED:
+        labels |= {x for ps in M._constraints.values() for p in ps for k in p for x in k}
+    labels = sorted(labels, key=repr)
+    if kind in MATRIX and labels:
+        labels = list(range(max(labels) + 1))
+    if len(labels) > 7:
+        return None
+    vals = (1, -1) if kind in SPIN else (0, 1)
+    for xs in itertools.product(vals, repeat=len(labels)):
+        x = dict(zip(labels, xs))
+        try:
+            a = (M.value(x), M.is_solution_valid(x))
+        except Exception as e:      # the original itself cannot be evaluated here: nothing to compare
+            continue
+        try:
+            b = (C.value(x), C.is_solution_valid(x))
+        except Exception as e:
+            return "%s: value / is_solution_valid(%r) raises %s on the copy, gives %r on the model" % (what, x, type(e).__name__, a)
+        if a != b:
+            return "%s: (value, is_solution_valid)(%r) is %r on the model and %r on the copy" % (what, x, a, b)
+    return None
 
 def info_cases(ctx, N):
     from qubovert.utils import get_info, create_from_info
@@ -117,6 +166,7 @@ def info_cases(ctx, N):
             elif type(M).__name__ in CONSTRAINED and (M2.num_ancillas != M.num_ancillas or M2.constraints != M.constraints):
                 bad = "ancilla count / constraints differ"
             elif snapshot(M) != before: bad = "get_info/create_from_info modified the model"
+            else: bad = behaves_differently(M, M2, "create_from_info(get_info(M))")
         except Exception as e:
             impl, bad = {"err": exc_name(e)}, "round trip raised %r" % (e,)
         case = {"family": "info", "desc": desc}
@@ -130,6 +180,8 @@ def info_cases(ctx, N):
             if type(C) is not type(M) or dict(C) != dict(M): cbad = "copy differs in type/terms"
             elif type(M).__name__ in CONSTRAINED and (C.num_ancillas != M.num_ancillas or C.constraints != M.constraints):
                 cbad = "copy differs in ancilla count / constraints"
+            else:
+                cbad = behaves_differently(M, C, "copy()") or behaves_differently(M, type(M)(M), "the copy constructor")
         except Exception as e:
             cimpl, cbad = {"err": exc_name(e)}, "copy raised %r" % (e,)
         cases.append(({"family": "copy", "desc": desc}, cbad)); impls.append(cimpl)
@@ -449,6 +501,8 @@ def info_symbolic(ctx, N):
             ctx.violation("C19:info-symbolic", case, bad)
 
 def check(ctx):
+    from . import c19h
+    c19h.check(ctx, ctx.scale(240, 2400))
     info_cases(ctx, ctx.scale(300, 3000))
     info_symbolic(ctx, ctx.scale(60, 400))
     for _ in range(ctx.scale(1, 5)):
@@ -456,5 +510,9 @@ def check(ctx):
     alias(ctx, ctx.scale(60, 600))
 
 def replay(ctx, payload):
+    case = payload.get("case") or (payload.get("first_difference") or {}).get("case") or {}
+    if case.get("family") == "heap":
+        from . import c19h
+        return c19h.replay(ctx, case)
     ctx.notes.append("C19 replays re-run the whole (deterministic, seeded) check; the stored case names the failing call")
     check(ctx)
